@@ -1,6 +1,271 @@
-//! C20: implementation-side case runners (see props/c20.py). Stub until the property is built.
+//! C20: RIPscrip and IGS command streams against the real parsers (see props/c20.py).
+//!
+//! Kinds
+//!   rip    <hex>          feed the bytes (Latin-1 chars) to a fresh rip::Parser; search-stage observation
+//!   ripseq <hex> <hex>…   same, several chunks on ONE parser (state carried over); one observation per chunk
+//!   ripobs <hex>          stage-C observation of the BGI state after the stream (+ canvas hashes)
+//!   igs    <hex>          feed the bytes to a fresh igs::Parser + DrawExecutor, draining at most 64 loop steps per char
+//!
+//! The engine prints to stdout from a few places (`println!` in the default `Command::run`, IGS loop parameter
+//! errors); stdout is the worker protocol channel, so it is pointed at /dev/null while a case runs.
+use crate::util::unhex;
 use crate::Obs;
+use icy_engine::{Buffer, BufferParser, Caret};
+use std::io::Write;
+use std::path::PathBuf;
+use std::sync::{Arc, Mutex};
 
-pub fn run(_kind: &str, _args: &[&str]) -> Option<Obs> {
-    None
+extern "C" {
+    fn dup(fd: i32) -> i32;
+    fn dup2(a: i32, b: i32) -> i32;
+    fn open(path: *const u8, flags: i32, ...) -> i32;
+    fn close(fd: i32) -> i32;
+    fn clock_gettime(clk: i32, ts: *mut Timespec) -> i32;
+}
+
+#[repr(C)]
+struct Timespec {
+    tv_sec: i64,
+    tv_nsec: i64,
+}
+
+/// CPU time of this process in milliseconds (CLOCK_PROCESS_CPUTIME_ID): independent of how loaded the machine is
+fn cpu_ms() -> i64 {
+    let mut ts = Timespec { tv_sec: 0, tv_nsec: 0 };
+    unsafe {
+        clock_gettime(2, &mut ts);
+    }
+    ts.tv_sec * 1000 + ts.tv_nsec / 1_000_000
+}
+
+struct Quiet {
+    saved: i32,
+}
+impl Quiet {
+    fn new() -> Quiet {
+        let _ = std::io::stdout().flush();
+        unsafe {
+            let saved = dup(1);
+            let null = open(b"/dev/null\0".as_ptr(), 1 /* O_WRONLY */);
+            if null >= 0 {
+                dup2(null, 1);
+                close(null);
+            }
+            Quiet { saved }
+        }
+    }
+}
+impl Drop for Quiet {
+    fn drop(&mut self) {
+        let _ = std::io::stdout().flush();
+        unsafe {
+            if self.saved >= 0 {
+                dup2(self.saved, 1);
+                close(self.saved);
+            }
+        }
+    }
+}
+
+/// directory the RIP parser looks icons up in: three tiny .ICN files (valid 8x8, truncated, over-sized header)
+fn icon_dir() -> PathBuf {
+    let d = std::env::temp_dir().join("ievh-c20-icons");
+    if !d.join("C.ICN").exists() {
+        let _ = std::fs::create_dir_all(&d);
+        let mut a = vec![7u8, 0, 7, 0];
+        a.extend((0..32).map(|i| (i * 37 + 11) as u8));
+        let _ = std::fs::write(d.join("A.ICN"), &a);
+        let _ = std::fs::write(d.join("B.ICN"), [15u8, 0, 15, 0, 1, 2, 3]);
+        let mut c = vec![0xffu8, 0xff, 0xff, 0xff];
+        c.extend(std::iter::repeat(0x5au8).take(40000));
+        let _ = std::fs::write(d.join("C.ICN"), &c);
+    }
+    d
+}
+
+fn new_buf() -> (Buffer, Caret) {
+    let mut buf = Buffer::new((80, 25));
+    buf.is_terminal_buffer = true;
+    (buf, Caret::default())
+}
+
+fn hash(bytes: &[u8]) -> i64 {
+    // h <- (h*31 + b + 1) mod 2^32, the same fold the Coq side computes
+    let mut h: u64 = 7;
+    for b in bytes {
+        h = (h * 31 + *b as u64 + 1) & 0xffff_ffff;
+    }
+    h as i64
+}
+
+struct Counts {
+    chars: i64,
+    ok: i64,
+    err: i64,
+}
+
+fn feed_rip(p: &mut icy_engine::rip::Parser, buf: &mut Buffer, caret: &mut Caret, bytes: &[u8], c: &mut Counts) {
+    for b in bytes {
+        c.chars += 1;
+        match p.print_char(buf, 0, caret, char::from(*b)) {
+            Ok(_) => c.ok += 1,
+            Err(_) => c.err += 1,
+        }
+    }
+}
+
+fn rip_obs(p: &mut icy_engine::rip::Parser, c: &Counts, v: &mut Vec<i64>) {
+    let w = p.bgi.window.width as i64;
+    let h = p.bgi.window.height as i64;
+    v.extend([c.chars, c.ok, c.err, p.bgi.screen.len() as i64, w, h]);
+    match p.get_picture_data() {
+        Some((sz, px)) => v.extend([1, sz.width as i64, sz.height as i64, px.len() as i64]),
+        None => v.extend([0, 0, 0, 0]),
+    }
+}
+
+fn rip(args: &[&str]) -> Obs {
+    let _q = Quiet::new();
+    let mut p = icy_engine::rip::Parser::new(Box::default(), icon_dir());
+    let (mut buf, mut caret) = new_buf();
+    let mut v = Vec::new();
+    let mut c = Counts { chars: 0, ok: 0, err: 0 };
+    for a in args {
+        feed_rip(&mut p, &mut buf, &mut caret, &unhex(a), &mut c);
+        rip_obs(&mut p, &c, &mut v);
+    }
+    Ok(v)
+}
+
+fn wm_code(m: icy_engine::rip::bgi::WriteMode) -> i64 {
+    use icy_engine::rip::bgi::WriteMode::*;
+    match m {
+        Copy => 0,
+        Xor => 1,
+        Or => 2,
+        And => 3,
+        Not => 4,
+    }
+}
+
+fn ripobs(args: &[&str]) -> Obs {
+    let _q = Quiet::new();
+    let mut p = icy_engine::rip::Parser::new(Box::default(), icon_dir());
+    let (mut buf, mut caret) = new_buf();
+    let mut c = Counts { chars: 0, ok: 0, err: 0 };
+    feed_rip(&mut p, &mut buf, &mut caret, &unhex(args[0]), &mut c);
+    let mut v = vec![c.err];
+    let bgi = &mut p.bgi;
+    v.push(bgi.get_color() as i64);
+    v.push(bgi.get_bk_color() as i64);
+    v.push(bgi.get_fill_color() as i64);
+    v.push(bgi.get_fill_style() as i64);
+    v.push(wm_code(bgi.get_write_mode()));
+    let pos = bgi.out_text_xy(0, 0, ""); // returns current_pos for the empty string
+    v.push(pos.x as i64);
+    v.push(pos.y as i64);
+    v.push(i64::from(bgi.suspend_text));
+    for b in bgi.get_fill_pattern() {
+        v.push(*b as i64);
+    }
+    let pal = bgi.get_palette();
+    v.push(pal.len() as i64);
+    let mut ph: u64 = 7;
+    for i in 0..pal.len() {
+        let (r, g, b) = pal.get_rgb(i as u32);
+        for x in [r, g, b] {
+            ph = (ph * 31 + x as u64 + 1) & 0xffff_ffff;
+        }
+    }
+    v.push(ph as i64);
+    v.push(bgi.screen.len() as i64);
+    v.push(hash(&bgi.screen));
+    // epilogue: make the viewport visible — plot a fixed set of probe pixels in colour 9 (write mode as left by the
+    // stream), then fill the part of the viewport that lies in the top 8 rows with the current fill style
+    for (x, y) in [(0, 0), (639, 0), (640, 0), (0, 349), (639, 349), (0, 350), (100, 100), (320, 175), (700, 10), (1295, 1295), (5, 400)] {
+        bgi.put_pixel(x, y, 9);
+    }
+    v.push(hash(&bgi.screen));
+    bgi.bar(0, 0, 1295, 7);
+    v.push(bgi.screen.len() as i64);
+    v.push(hash(&bgi.screen));
+    Ok(v)
+}
+
+fn igs(args: &[&str]) -> Obs {
+    let _q = Quiet::new();
+    let exe: Arc<Mutex<Box<dyn icy_engine::igs::CommandExecutor>>> = Arc::new(Mutex::new(Box::<icy_engine::igs::DrawExecutor>::default()));
+    let mut p = icy_engine::igs::Parser::new(exe.clone());
+    let (mut buf, mut caret) = new_buf();
+    let mut v = Vec::new();
+    let mut c = Counts { chars: 0, ok: 0, err: 0 };
+    let mut steps = 0i64;
+    for a in args {
+        for b in unhex(a) {
+            c.chars += 1;
+            match p.print_char(&mut buf, 0, &mut caret, char::from(b)) {
+                Ok(_) => c.ok += 1,
+                Err(_) => c.err += 1,
+            }
+            for _ in 0..64 {
+                if p.get_next_action(&mut buf, &mut caret, 0).is_none() {
+                    break;
+                }
+                steps += 1;
+            }
+        }
+        let res = exe.lock().unwrap().get_resolution();
+        v.extend([c.chars, c.ok, c.err, steps, res.width as i64, res.height as i64]);
+        match p.get_picture_data() {
+            Some((sz, px)) => v.extend([1, sz.width as i64, sz.height as i64, px.len() as i64]),
+            None => v.extend([0, 0, 0, 0]),
+        }
+    }
+    Ok(v)
+}
+
+/// attribution of a stall / abort inside a sequence: one chunk per command, progress on stderr (the driver reports the last
+/// stderr line of a worker that died), CPU milliseconds per chunk on success
+fn timed(lang: &str, args: &[&str]) -> Obs {
+    let _q = Quiet::new();
+    let mut v = Vec::new();
+    let (mut buf, mut caret) = new_buf();
+    if lang == "rip" {
+        let mut p = icy_engine::rip::Parser::new(Box::default(), icon_dir());
+        let mut c = Counts { chars: 0, ok: 0, err: 0 };
+        for (i, a) in args.iter().enumerate() {
+            eprintln!("c20-progress {i}");
+            let t = cpu_ms();
+            feed_rip(&mut p, &mut buf, &mut caret, &unhex(a), &mut c);
+            v.push(cpu_ms() - t);
+        }
+    } else {
+        let exe: Arc<Mutex<Box<dyn icy_engine::igs::CommandExecutor>>> = Arc::new(Mutex::new(Box::<icy_engine::igs::DrawExecutor>::default()));
+        let mut p = icy_engine::igs::Parser::new(exe.clone());
+        for (i, a) in args.iter().enumerate() {
+            eprintln!("c20-progress {i}");
+            let t = cpu_ms();
+            for b in unhex(a) {
+                let _ = p.print_char(&mut buf, 0, &mut caret, char::from(b));
+                for _ in 0..64 {
+                    if p.get_next_action(&mut buf, &mut caret, 0).is_none() {
+                        break;
+                    }
+                }
+            }
+            v.push(cpu_ms() - t);
+        }
+    }
+    Ok(v)
+}
+
+pub fn run(kind: &str, args: &[&str]) -> Option<Obs> {
+    Some(match kind {
+        "rip" | "ripseq" => rip(args),
+        "ripobs" => ripobs(args),
+        "igs" | "igsseq" => igs(args),
+        "riptime" => timed("rip", args),
+        "igstime" => timed("igs", args),
+        _ => return None,
+    })
 }
